@@ -100,7 +100,7 @@ def gen_face_grid(rng, allow_big=False):
 def gen_case(rng, family=None):
     family = family or rng.choice(["pad2d", "pad2d", "pad2d", "faceop", "faceop", "sigeq", "sigeq", "badtable",
                                    "parse", "parse", "metrics", "metrics", "general", "general", "general",
-                                   "registry", "mwb"])
+                                   "registry", "mwb", "mwi"])
     words = ["fill", "extend", "periodic"]
     if family in ("pad2d", "faceop"):
         gs = gen_face_grid(rng)
@@ -222,6 +222,14 @@ def gen_case(rng, family=None):
         req = rng.choice([["X", "Y", "Z"], ["Z", "Y", "X"], ["Y", "X", "Z"], ["X", "Y"], ["Y", "Z"]])
         return {"kind": "metrics", "axis_order": axn, "registry": [list(b) for b in reg], "request": req,
                 "op": rng.choice(["get_metric", "integrate", "average"]), "seed": rng.randrange(10**6)}
+    if family == "mwi":
+        # a metric that has to be interpolated along two (or three) axes at once to reach the data's position;
+        # generic (non-dyadic) values, so that the order of the 1-D interpolations shows in the last bit
+        axn = ["X", "Y", "Z"][: rng.choice([2, 2, 3])]
+        rng.shuffle(axn)
+        return {"kind": "mwi", "axis_order": axn, "data_pos": {a: rng.choice(["left", "left", "center"]) for a in axn},
+                "op": rng.choice(["get_metric", "integrate", "average", "interp_like", "interp_mw"]),
+                "faces": rng.random() < 0.3, "seed": rng.randrange(10**6)}
     if family == "mwb":
         # metric-aware operations on data that has FEWER dimensions than the metric (the result broadcasts
         # against dimensions the input lacks, or the call is refused - identically under every hash seed)
@@ -261,6 +269,23 @@ def permute_links(fcj, pi):
             ak = list(faces[f])
             r.shuffle(ak)
             out[facedim][f] = {a: faces[f][a] for a in ak}
+    return out
+
+
+def permute_mappings(kw, pi):
+    """Same keyword mappings, other key order (boundary / fill_value / to / metric_weighted given per axis):
+    equal mappings are the same argument."""
+    if pi == 0 or not kw:
+        return kw
+    r = random.Random(pi + 17)
+    out = {}
+    for k, v in kw.items():
+        if k in ("boundary", "fill_value", "to", "metric_weighted") and isinstance(v, dict) and len(v) > 1:
+            keys = list(v)
+            r.shuffle(keys)
+            out[k] = {a: v[a] for a in keys}
+        else:
+            out[k] = v
     return out
 
 
@@ -353,7 +378,7 @@ def execute(spec, pi=0):
                 grid = worlds.build_grid(ds, gs)
                 sizes = dict(ds.sizes)
                 da = worlds.attach_coords(worlds.build_da(sizes, spec["input"]), ds)
-                kw = copy.deepcopy(spec["kw"])
+                kw = permute_mappings(copy.deepcopy(spec["kw"]), pi)
                 if spec.get("vector"):
                     da2 = worlds.attach_coords(worlds.build_da(sizes, spec["input2"]), ds)
                     comp = spec["comp"]
@@ -415,6 +440,41 @@ def execute(spec, pi=0):
                 else:
                     res = grid.average(da, spec["request"])
                 return ["ok", _res_digest(res)]
+            if kind == "mwi":
+                n = {"X": 4, "Y": 3, "Z": 3}
+                axn = spec["axis_order"]
+                axes = {a: {"n": n[a], "pos": {"center": a.lower() + "c", "left": a.lower() + "g"}} for a in axn}
+                gs = {"axes": axes, "extra": {}, "vars": {}, "grid": {"periodic": False, "boundary": "extend"}}
+                if spec.get("faces") and set(axn) >= {"X", "Y"}:
+                    axes["Y"]["n"] = axes["X"]["n"] = 3
+                    gs["face"] = {"dim": "face", "n": 2}
+                    links = {"0": {"X": [None, [1, "Y", False]]}, "1": {"Y": [[0, "X", False], None]}}
+                    gs["grid"]["face_connections"] = {"face": permute_links({"face": links}, pi)["face"]}
+                sizes = worlds.dim_sizes(gs)
+                rg = np.random.default_rng(spec["seed"])
+                pre = ["face"] if gs.get("face") else []
+                mdims = pre + [a.lower() + "c" for a in axn]
+                ddims = pre + [axes[a]["pos"][spec["data_pos"][a]] for a in axn]
+                ds = worlds.build_ds(gs)
+                ds["vol"] = (mdims, 0.5 + rg.random([sizes[d] for d in mdims]))
+                import xgcm as _x
+
+                kw = worlds.grid_kwargs(gs)
+                kw["metrics"] = {tuple(axn): ["vol"]}
+                grid = _x.Grid(ds, **kw)
+                da = xr.DataArray(rg.random([sizes[d] for d in ddims]), dims=ddims, name="q")
+                op = spec["op"]
+                if op == "get_metric":
+                    res = grid.get_metric(da, axn)
+                elif op == "integrate":
+                    res = grid.integrate(da, axn)
+                elif op == "average":
+                    res = grid.average(da, axn)
+                elif op == "interp_like":
+                    res = grid.interp_like(ds["vol"], da, boundary="extend")
+                else:
+                    res = grid.interp(da, axn[0], metric_weighted=list(axn), boundary="extend")
+                return ["ok", _res_digest(res)]
             if kind == "mwb":
                 n = {"X": 3, "Y": 2, "Z": 4}
                 axes = {a: {"n": n[a], "pos": {"center": a.lower() + "c", "left": a.lower() + "g"}} for a in spec["axis_order"]}
@@ -448,6 +508,7 @@ def execute(spec, pi=0):
                 g = sub["gspec"]["grid"]
                 if g.get("face_connections"):
                     g["face_connections"] = permute_links(g["face_connections"], pi)
+                sub["op"]["kw"] = permute_mappings(sub["op"].get("kw", {}), pi)
                 ds = worlds.build_ds(sub["gspec"])
                 grid = worlds.build_grid(ds, sub["gspec"])
                 da, da2 = eng_c06.build_inputs(sub, ds)
@@ -490,6 +551,8 @@ def involved_orders(spec):
         return [list(set(["X", "Y"])), list(frozenset(["X", "Y"]))]
     if kind == "mwb":
         return [list(set(a.lower() + "c" for a in spec["axis_order"]))]
+    if kind == "mwi":
+        return [list(set(spec["axis_order"]))]
     return []
 
 
@@ -529,7 +592,8 @@ RULE = (
     "selected, by probing ~1200 (thorough 4000) candidate seeds with bare interpreters, to realise every ordering "
     "of the 2- and 3-element name sets involved and as many 4-element orderings as found; in each interpreter the "
     "case is run under the identity and two random permutations of the insertion order of the face-link table "
-    "(faces and per-face axis entries). Case families: 2-D halo padding on face-connected grids (cubed sphere, "
+    "(faces and per-face axis entries) and of the per-axis keyword mappings boundary / fill_value / to / "
+    "metric_weighted (equal mappings are the same argument; the order of boundary_width is NOT permuted). Case families: 2-D halo padding on face-connected grids (cubed sphere, "
     "tilings, random reciprocal tables; asymmetric widths 0-2 on both axes; different boundary rules and fill "
     "values per axis; scalar and vector input), two-axis diff/interp/min/max on the same grids, acceptance or "
     "refusal of link tables carrying one ill-posing edit (wrong face, wrong axis, flipped reverse flag, missing "
